@@ -1049,7 +1049,8 @@ class FlowIRExperimentConfiguration:
         # VV: Validate after replicating because of `replica` variables
         try:
             if (self._concrete != FlowIRExperimentConfiguration._NoFlowIR) or (len(out_errors) == 0):
-                out_errors.extend(self._concrete.validate(top_level_folders=self.top_level_folders))
+                out_errors.extend(self._concrete.validate(
+                    top_level_folders=self.top_level_folders, is_primitive=self._is_primitive))
         except Exception as e:
             self.log.debug(f"Unexpected error while validating {e} -- traceback:\n{traceback.format_exc()}")
             out_errors.append(e)
